@@ -61,7 +61,8 @@ PROPS["C16"] = dict(
          "n=1..60 and 120/300; 1-4 right-hand sides. Non-trivial: fill-in occurs or a row is stored unsorted. "
          "Distinct: (n, pattern+value+scale class, constructor, sortedness, zeros, fill, #rhs, rhs kind, log10 min pivot)."
          " Third session: the solving object is obtained by construction, copy assignment or move assignment onto a solver holding another factorisation (dimension n-1, n, n+2), or copy construction."
-         " Round 10: LU-product matrices with rows whose pivot comes from fill-in only (a_ii exactly zero, stored explicitly or absent).",
+         " Round 10: LU-product matrices with rows whose pivot comes from fill-in only (a_ii exactly zero, stored explicitly or absent)."
+         " Round 11: in a third of the cases the matrix object is obtained by copy/move assignment over another CSR object (same size and number of entries but other row lengths, or another size).",
     technique="property-based testing (rapidcheck); differential against long double dense LU with Higham's componentwise bound",
     level_text="Generated sparse systems are solved by the real CSR container + SparseLUSolver and judged by the rigorous "
                "componentwise backward bound |b-Ax| <= c*gamma_3n*|L||U||x| (L,U from a long double factorisation "
@@ -86,7 +87,8 @@ PROPS["C15"] = dict(
          "history contains a copy or move taken after the source acquired state (a solve for solver classes, any "
          "content for containers) and a later observation. Distinct: class + sequence of applied command kinds."
          " Third session: std::swap and chained assignment commands; one vector in 25 has 10001-10007 entries and the harness runs with three threads."
-         " Round 9: self-move command (x = std::move(x)).",
+         " Round 9: self-move command (x = std::move(x))."
+         " Round 11: a quarter of the set commands on tridiagonal solvers toggle is_cyclic.",
     technique="stateful property-based testing (rapidcheck command sequences) against a value-semantics reference model, under ASan/UBSan",
     level_text="Model-based exploration of operation histories: the real objects and a trivially correct value model are "
                "driven by the same generated command sequence and compared after every step; ASan/UBSan watch the "
@@ -211,7 +213,8 @@ PROPS["C04"] = dict(
          "threads; 1-3 right-hand sides per factorisation of kinds normal/smooth/unit/spikes/huge dynamic range/constant. "
          "Non-trivial: >=40 nodes and non-circular geometry or non-uniform grid. Distinct: (dims, geometry, profile, BC, "
          "#circles, threads, rhs kind)."
-         " Third session: 40% of the right-hand sides are scaled by 2^+-300 or 2^+-600 as a whole; a quarter of the cases also go through Level::initializeDirectSolver/directSolveInPlace on a Level first initialised for the other boundary mode.",
+         " Third session: 40% of the right-hand sides are scaled by 2^+-300 or 2^+-600 as a whole; a quarter of the cases also go through Level::initializeDirectSolver/directSolveInPlace on a Level first initialised for the other boundary mode."
+         " Round 11: a fifth of the cases construct both solvers from inside an enclosing parallel region (short team).",
     technique="property-based testing (rapidcheck); inverse/round-trip oracle (solve then independent residual), differential give vs take",
     level_text="The solution returned by each strategy's direct solver is fed to the other strategy's residual operator "
                "and to the independent reference operator; every row's residual must stay below the row-scaled "
@@ -234,7 +237,8 @@ PROPS["C06"] = dict(
     quick=dict(workers=16, cases=20000, min_nontrivial=300, budget_s=900),
     thorough=dict(workers=16, cases=100000, min_nontrivial=3000, budget_s=3000),
     rule="SmootherGive/SmootherTake on " + _SMOOTH_RULE % (2, "and for energy-norm monotonicity") +
-         " Third session: vectors scaled by 2^+-100/2^+-300 in 40% of the cases; one invariant-only case in eight on a grid of 10 000-25 000 nodes (parallel assembly path), there also give == take (1e-4) and multi-threaded == single-threaded objects; a fifth of the cases obtain the sweeps through a Level re-initialised for the other boundary mode.",
+         " Third session: vectors scaled by 2^+-100/2^+-300 in 40% of the cases; one invariant-only case in eight on a grid of 10 000-25 000 nodes (parallel assembly path), there also give == take (1e-4) and multi-threaded == single-threaded objects; a fifth of the cases obtain the sweeps through a Level re-initialised for the other boundary mode."
+         " Round 11: an eighth of the cases sweep on a copy of a smoother that has already swept.",
     technique="property-based testing (rapidcheck); model-based oracle (reference zebra relaxation on the probed operator) plus residual, fixed-point and energy-norm invariants",
     level_text="Each generated case runs one real smoothing sweep (both strategies, scratch vector pre-filled with garbage) "
                "and checks: equality with an independent exact zebra line relaxation of the probed operator, zero "
@@ -250,7 +254,8 @@ PROPS["C07"] = dict(
     quick=dict(workers=16, cases=20000, min_nontrivial=300, budget_s=900),
     thorough=dict(workers=16, cases=100000, min_nontrivial=3000, budget_s=3000),
     rule="ExtrapolatedSmootherGive/Take on coarsenable " + _SMOOTH_RULE % (3, "(f := A x for an arbitrary x)") +
-         " Third session: as C06 (scaled vectors, grids above 10 000 nodes, re-initialised Level).",
+         " Third session: as C06 (scaled vectors, grids above 10 000 nodes, re-initialised Level)."
+         " Round 11: an eighth of the cases sweep on a copy of a smoother that has already swept.",
     technique="property-based testing (rapidcheck); bitwise invariance of coarse nodes, model-based oracle (reference relaxation restricted to fine-only nodes), residual and fixed-point invariants",
     level_text="Each generated case runs one real extrapolated smoothing sweep (both strategies) and checks that every node of "
                "the next coarser grid is returned bit for bit (memcmp), that the result equals an independent zebra "
@@ -481,7 +486,8 @@ PROPS["C11"] = dict(
          "(banner checked), operator executed twice in parallel and once serially. Non-trivial: threads>=2. Distinct: "
          "(operator, circles mod 12, nr, ntheta, BC, threads)."
          " Third session: a fifth of the whole solves use nr_exp 8 (levels above the 10 000-node threshold, one iteration); setup() runs with the configured thread count; a line-solver operator (n up to 30000)."
-         " Arrival order: in three quarters of the cases the Archer tool is wrapped by an OMPT tool of the harness that delays threads by seeded pseudo-random amounts at region begin, barrier exit and worksharing end (thread 0 most often), so that `single`, dynamic chunks and nowait successors are not always won by the encountering thread. ThreadSanitizer runs with called_from_lib suppressions for the OpenMP runtime and Archer instead of ignore_noninstrumented_modules=1, which with clang 14 hides every write made through memmove/memcpy (std::copy, std::move into a vector).",
+         " Arrival order: in three quarters of the cases the Archer tool is wrapped by an OMPT tool of the harness that delays threads by seeded pseudo-random amounts at region begin, barrier exit and worksharing end (thread 0 most often), so that `single`, dynamic chunks and nowait successors are not always won by the encountering thread. ThreadSanitizer runs with called_from_lib suppressions for the OpenMP runtime and Archer instead of ignore_noninstrumented_modules=1, which with clang 14 hides every write made through memmove/memcpy (std::copy, std::move into a vector)."
+         " Round 11: an eighth of the residual and smoother cases use a 65 x 160..176 level (above the 10000-node threshold).",
     technique="property-based testing (rapidcheck) over schedule classes (shape x thread count) with a happens-before race detector (ThreadSanitizer + Archer OMPT) as the oracle, plus parallel-vs-serial differential",
     level_text="The code uses only statically scheduled omp-for loops and barriers, so which thread touches which line and "
                "what synchronises them is a function of (operator, grid shape class, thread count); the harness generates "
